@@ -59,6 +59,17 @@ func ZZH_C04_report_step() {
 	b, _ := rec.Marshal()
 	w.put(zzTMAddr, TxInfoKey(id), b)
 	tm := zzTM(w)
+	// the contract object is long-lived (one instance per executor, the stub is swapped per
+	// call): optionally it already served a Report for another transaction, accepted or rejected
+	if zz.Choice("earlierCallOnSameInstance", 2) == 1 {
+		st0 := pb.TransactionStatus(zz.I32("status0"))
+		zz.Assume(st0 >= 0 && st0 <= 5)
+		rec0 := pb.TransactionRecord{Status: st0, Height: h}
+		b0, _ := rec0.Marshal()
+		w.put(zzTMAddr, TxInfoKey("chA:s1-chB:s2-7"), b0)
+		_ = tm.Report("chA:s1-chB:s2-7", zz.I32("receipt0"))
+		tm.Stub = w.stubFor(zzTMAddr, zzInterchainAddr)
+	}
 	snap := w.snapshot()
 	out := tm.Report(id, res)
 	post, ok := zzRecord(w, id)
